@@ -8,7 +8,7 @@ import sympy as sp
 from ptstat import AnalysisError, algebra
 from ptstat.symval import SymObj, Phi, SymRaise
 from ptstat.world import mass_sym
-from .common import eq, fsite, raises, _s
+from .common import eq, fsite, raises, _s, callees_in_common
 from .nworld import neutron_world
 
 EXPLANATION = (
@@ -56,8 +56,18 @@ def setup(ctx, energy_dependent=()):
     return w, seen
 
 
+def d2o_helper(ctx):
+    """the private function shared by D2O_match and D2O_sld that computes the four component SLDs (found by its callers)"""
+    c = callees_in_common(ctx, "nsf.D2O_match", "nsf.D2O_sld", exclude=("nsf.mix_values",))
+    c = [q_ for q_ in c if q_.rsplit(".", 1)[-1].startswith("_")] or c
+    if len(c) != 1:
+        raise AnalysisError(f"expected one helper shared by D2O_match and D2O_sld, found {c}")
+    return c[0]
+
+
 def run(ctx):
     w, seen = setup(ctx)
+    DH = d2o_helper(ctx)
     I, A = w.I, w.atoms
     fm = I.global_name("formulas", "formula")
     nsld = I.global_name("nsf", "neutron_sld")
@@ -140,7 +150,7 @@ def run(ctx):
     w2, _ = setup(ctx)
     I2 = w2.I
     Hw, Dw, Hs, Ds = (tuple(sp.symbols(f"{n}_re {n}_im {n}_inc", real=True)) for n in ("H2O", "D2O", "Hform", "Dform"))
-    I2.stubs["nsf._D2O_slds"] = lambda I_, a, k: (Hw, Dw, Hs, Ds)
+    I2.stubs[DH] = lambda I_, a, k: (Hw, Dw, Hs, Ds)
     match, msld = I2.call(I2.global_name("nsf", "D2O_match"), [None], {})
     solute = lambda x: x * Ds[0] + (1 - x) * Hs[0]
     solvent = lambda x: x * Dw[0] + (1 - x) * Hw[0]
@@ -158,7 +168,7 @@ def run(ctx):
     # fasta.D2Omatch is the same equation, as a percentage
     Hx, Dx = sp.symbols("Hx Dx", real=True)
     fm_ = I.call(I.global_name("fasta", "D2Omatch"), [Hx, Dx], {})
-    I2.stubs["nsf._D2O_slds"] = lambda I_, a, k: ((I.global_name("fasta", "H2O_SLD"), 0, 0), (I.global_name("fasta", "D2O_SLD"), 0, 0), (Hx, 0, 0), (Dx, 0, 0))
+    I2.stubs[DH] = lambda I_, a, k: ((I.global_name("fasta", "H2O_SLD"), 0, 0), (I.global_name("fasta", "D2O_SLD"), 0, 0), (Hx, 0, 0), (Dx, 0, 0))
     nm, _ = I2.call(I2.global_name("nsf", "D2O_match"), [None], {})
     eq(ctx, "R1", "fasta.D2Omatch(Hsld, Dsld) = 100 * the nsf match equation with the 20 C water SLDs", fm_, 100 * nm,
        fsite(ctx, "fasta.D2Omatch"))
@@ -168,7 +178,7 @@ def run(ctx):
     # R3 roles and solvents
     ctx.check(set(seen) == {"H2O@0.9982n", "D2O@0.9982n"}, "R3",
               "the solvents are H2O and D2O at the same natural density 0.9982 (20 C)",
-              f"strings handed to the parser: {sorted(set(seen))}", fsite(ctx, "nsf._D2O_slds"), sample=sorted(set(seen)))
+              f"strings handed to the parser: {sorted(set(seen))}", fsite(ctx, DH), sample=sorted(set(seen)))
     # a compound given as a string together with table=T is parsed with T (not with the default table)
     other = I.new_obj("other_public_table", None, {}, open_attrs=set())
     COMPOUND_STRINGS.clear()
@@ -183,13 +193,13 @@ def run(ctx):
     COMPOUND_STRINGS.clear()
     seen[:] = [x for x in seen if x != "<compound>"]
     ctx.check(bool(tabs) and all(tb is w.table for tb in tabs), "R3", "a compound string given with table=T is parsed with T",
-              f"parsed with {[getattr(tb, 'name', tb) for tb in tabs]}", fsite(ctx, "nsf._D2O_slds"))
+              f"parsed with {[getattr(tb, 'name', tb) for tb in tabs]}", fsite(ctx, DH))
     eq(ctx, "R3", "D2O_sld('<string>', table=T) = D2O_sld(formula, table=T)", gs[0], got[0], s_sld)
     # private table: H[1], H and D are taken from the compound's table
-    f = ctx.src.func("nsf._D2O_slds")
+    f = ctx.src.func(DH)
     names = {n.id for n in ast.walk(f.node) if isinstance(n, ast.Name)}
     ctx.check("default_table" in names, "R3", "labile H, H and D are looked up in the table given with the compound",
-              "_D2O_slds does not resolve the table argument", fsite(ctx, "nsf._D2O_slds"))
+              "_D2O_slds does not resolve the table argument", fsite(ctx, DH))
 
     # biomolecule class
     Mol = I.get_class("fasta.Molecule")
